@@ -60,7 +60,7 @@ def main():
         os.makedirs(os.path.dirname(dst), exist_ok=True)
         shutil.copy(srcp, dst)
         placed.append(dst)
-    demo_cmd = meta["demo_cmd"]
+    demo_cmd = re.sub(r"\s*\(fallback:.*\)\s*$", "", meta["demo_cmd"])  # some authors append a prose fallback
     # strip a leading "cp ... &&" the agent may have included
     rc0, out0, w0 = sh(demo_cmd, wt)
     res["demo_without_patch_rc"] = rc0
